@@ -95,6 +95,7 @@ static int viol_codes(int a, int r, int *codes)
   return n;
 }
 
+#include <pthread.h>
 #define SENT_KF ((econf_file *)(uintptr_t)0x10)
 #define SENT_HIST ((econf_file **)(uintptr_t)0x20)
 
@@ -121,6 +122,9 @@ static econf_err do_read(econf_file **kf, econf_file ***hist, size_t *hsize)
   mc_st->libcalls++;
   return rc;
 }
+
+typedef struct { econf_file *kf; econf_file **hist; size_t hsize; econf_err rc; } thr_arg;
+static void *read_in_thread(void *a) { thr_arg *t = a; t->rc = do_read(&t->kf, &t->hist, &t->hsize); return NULL; }
 
 static void release(econf_file *kf, econf_file **hist, size_t hsize)
 {
@@ -202,6 +206,12 @@ static void exec(void)
       sb_free(&err); obs_free(&o);
     }
     mc_extra(0, "reads_refused", 1);
+    /* the rules are process-wide: the same read issued from another thread is refused in the same way */
+    { thr_arg ta; pthread_t th;
+      if (pthread_create(&th, NULL, read_in_thread, &ta) != 0) mc_die("pthread_create");
+      pthread_join(th, NULL);
+      if (ta.rc != rc) mc_fail(sig.s, "the read returns %d (%s) in the thread that set the rules and %d (%s) in another thread; %s", (int)rc, econf_errString(rc), (int)ta.rc, econf_errString(ta.rc), sig.s);
+      release(ta.kf, ta.hist, ta.hsize); }
   } else check_accepted("under restrictions", rc, kf, hist, hsize, list, nlist, sig.s);
   release(kf, hist, hsize);
   mc_outcome(((uint64_t)rc << 4) ^ (uint64_t)restr ^ ((uint64_t)(viol_at + 1) << 12));
